@@ -44,7 +44,7 @@ def all_terms(tier):
     out += [(t, "T1", b["L_T1"]) for t in G.tier1()]
     out += [(t, "T2", b["L_T2"]) for t in G.tier2(strict=False)]
     out += [(t, "T3", b["L_T3"]) for t in G.tier3(strict=False)]
-    out += [(t, "T4", b["L_T2"]) for t in G.tier4()] + [(t, "TD", b["L_T2"]) for t in G.discard_terms() + G.select_records() + G.zero_size_terms()]
+    out += [(t, "T4", b["L_T2"]) for t in G.tier4()] + [(t, "TD", b["L_T2"]) for t in G.discard_terms() + G.select_records() + G.zero_size_terms() + G.sequence_twins()]
     # the same terms inside the streaming implementation of the bit/byte transforms (unsized content)
     out += [(t, "TSt", b["L_T3"]) for t in G.streaming_terms(1 if tier == "quick" else 2)]
     if tier == "thorough":
